@@ -362,6 +362,10 @@ func VerifC15_KSleep() {
 	vAssert(res.IsNil(), "sleep within every bound completes")
 	vAssert(nblock == 1 && vBlockDur(0) == int64(d), "blocks exactly once, on a timer of exactly d")
 	vAssert(vBlockKind(0) == "select-timer", "the wait is a select on the timer and the context's Done channel (interruptible)")
+	if sc.hasDone {
+		// a context that can be cancelled stays able to interrupt the wait, however far its deadline is
+		vAssert(vBlockAlts(0) >= 1, "the wait listens on the context's Done channel: a cancel arriving during the sleep ends it")
+	}
 	vCover("slept")
 }
 
